@@ -1005,6 +1005,7 @@ def _repro_of(cell, seed):
     L.append("    return repr(dict(name=o.name, attrib=o.attrib, atoms=[(a.label, a.element, a.formal_charge, a.attrib) for a in o.atoms],")
     L.append("                bonds=[(b.label, b.btype, b.attrib) for b in getattr(o, 'bonds', [])], coords=getattr(o, 'coords', None), q=getattr(o, 'atomic_charges', None)))")
     L.append("print('same dict object on both sides:', [a.attrib is b.attrib for a, b in zip(cp.atoms, src.atoms)], cp.attrib is src.attrib)")
+    L.append("print('nested containers that are the same object:', [k for a, b in zip(list(cp.atoms) + [cp], list(src.atoms) + [src]) for k, v in a.attrib.items() if isinstance(v, (dict, list)) and v is b.attrib.get(k)])")
     for m, d in zip(muts, dirs):
         side = "cp" if d == "copy" else "src"
         other = "src" if d == "copy" else "cp"
